@@ -37,6 +37,14 @@ class Work:
     """scratch directory under /verif/.work, removed at exit"""
 
     def __init__(self, pid_tag):
+        # scratch directories of runs that were killed (their process is gone) are removed first: a thorough
+        # run can leave gigabytes behind
+        wd = os.path.join(VERIF, ".work")
+        if os.path.isdir(wd):
+            for name in os.listdir(wd):
+                m = re.fullmatch(r"C\d\d(?:-replay)?-(\d+)", name)
+                if m and not os.path.exists("/proc/%s" % m.group(1)):
+                    shutil.rmtree(os.path.join(wd, name), ignore_errors=True)
         self.dir = os.path.join(VERIF, ".work", "%s-%d" % (pid_tag, os.getpid()))
         shutil.rmtree(self.dir, ignore_errors=True)
         os.makedirs(self.dir)
